@@ -272,4 +272,82 @@ example :
     (run c s' ([Op.unlock, .lock, .readView].filterMap (tokOf 0 15))).map (·.1) = [.ok, .err, .na] := by
   decide
 
+/-! ### OUTSIDE the operation list: the safe method `Zeroize::zeroize(&mut self)`
+
+`impl Zeroize for Protected<A, PM, LM>` (/repo/src/protected.rs, right after `Drop`, which calls
+it) is a SAFE, public method available in EVERY type state.  On a non-empty region it makes the
+pages read-write (if the internal mode is not `ReadWrite`), zeroes the bytes, and unlocks the pages
+(if the internal mode is `Locked`) — through `&mut self`, i.e. WITHOUT consuming the handle and
+without changing its type: a `Protected<_, ReadOnly, Locked>` is afterwards still typed
+`ReadOnly, Locked`, while its pages are writable and unlocked.
+
+`Model/TypeState.lean` has NO row for this method (its `Op` list is: the views, `index`, `resize`,
+`clone`, the five transitions, `useAfter`), the kernel model has no token for it (the harness token
+`zeroize` is issued on plain / unlocked read-write slots only, where it coincides with `fill:00`),
+and so `marker_is_page_right`, `views_offered_iff_no_segv`, `well_typed_no_segv` do NOT cover
+programs that call it.  The counter-model below records this, so that nobody reads
+`well_typed_no_segv` as "no safe program can make marker and pages disagree".  What goes wrong after
+`zeroize` is not a crash — the pages only become MORE permissive — but the guarantee the marker
+advertises (read-only, locked in RAM) silently no longer holds.  It is an observation about the
+API, outside the property's operation list; it contradicts none of the theorems above. -/
+
+open DryocVerif.Model.Protected (dryocMprotect dryocMunlock zeroizeV ptr lockedPages) in
+/-- the effect of `Zeroize::zeroize(&mut self)` on the live `Protected` region in slot `i`, on the
+kernel model: pages read-write (unless the mode already is `ReadWrite`), bytes zeroed, pages
+unlocked (if the mode is `Locked`); the slot's TYPE STATE IS LEFT AS IT IS.  (Empty regions, bare
+containers and consumed slots: nothing happens — for a bare container the derived `Zeroize` only
+zeroes bytes, which is `fill:00`.) -/
+def zeroizeEffect (c : Cfg) (s : State) (i : Nat) : State :=
+  match s.slots[i]? with
+  | none => s
+  | some sl =>
+    if sl.gone then s else
+    match sl.o.st with
+    | .plain => s
+    | .prot lm pm =>
+      if sl.o.v.len = 0 then s else
+      let m1 := if pm = .rw then s.m else dryocMprotect c s.m (ptr c sl.o.v) sl.o.v.len .rw
+      let m2 := if lm = .locked then dryocMunlock c m1 (ptr c sl.o.v) sl.o.v.len else m1
+      setSlot s m2 i { sl with o := ⟨sl.o.st, zeroizeV sl.o.v⟩ }
+
+/-- the state `new; lock; ro` (slot 0: a live `LockedRO` region of 16 bytes) … -/
+def zc : Cfg := { P := 4096, isArr := false, n := 16 }
+def zs : State := runState zc (State.init fun _ => true) [⟨.new, 0⟩, ⟨.lock, 0⟩, ⟨.ro, 0⟩]
+
+open DryocVerif.Model.Protected (lockedPages) in
+/-- **`zeroize` makes marker and pages disagree** (concrete counter-model, by evaluation).
+Before: slot 0 is `LockedRO`, a write probe faults, one page is locked — as the marker says.
+After `zeroizeEffect`: the slot's type state is STILL `LockedRO` = table state `(ro, locked)`, for
+which `allowed .ro .write = false`; yet the write probe answers `ok` and no page is locked; the
+state no longer satisfies the invariant `Inv` of C14, i.e. the premise of `marker_is_page_right`
+fails (if it held, that theorem would force the write probe to fault). -/
+theorem zeroize_breaks_marker :
+    (zs.slots.map fun sl => (sl.gone, sl.o.st, sl.o.v.len)) =
+      [(false, .prot (convLM .locked) (convPM .ro), 16)] ∧
+    ((zeroizeEffect zc zs 0).slots.map fun sl => (sl.gone, sl.o.st, sl.o.v.len)) =
+      [(false, .prot (convLM .locked) (convPM .ro), 16)] ∧
+    allowed .ro .write = false ∧ permits .ro .locked .bytes .mutView = false ∧
+    (opWProbe zc zs 0 0).1 = .segv ∧ (opWProbe zc (zeroizeEffect zc zs 0) 0 0).1 = .ok ∧
+    lockedPages zs.m.k = 1 ∧ lockedPages (zeroizeEffect zc zs 0).m.k = 0 ∧
+    Inv zc zs ∧ ¬ Inv zc (zeroizeEffect zc zs 0) := by
+  refine ⟨by decide, by decide, by decide, by decide, by decide, by decide, by decide, by decide,
+    inv_runState (by decide) _ (inv_init _ _), ?_⟩
+  intro h
+  have hsl : ∃ sl, (zeroizeEffect zc zs 0).slots[0]? = some sl ∧ sl.gone = false ∧
+      sl.o.st = .prot (convLM .locked) (convPM .ro) ∧ 0 < sl.o.v.len := by
+    refine ⟨_, rfl, ?_⟩; decide
+  obtain ⟨sl, hi, hg, hst, hoff⟩ := hsl
+  have hseg := (marker_is_page_right zc (by decide) _ h 0 sl hi hg .ro .locked hst 0 hoff).2.2.2.2
+  have : (opWProbe zc (zeroizeEffect zc zs 0) 0 0).1 = .segv := hseg (by decide)
+  exact absurd this (by decide)
+
+/-- on a read-write, unlocked region `zeroize` does what the harness token of the same name does:
+only the bytes change (so nothing is lost by modelling that token as `fill:00`) -/
+example :
+    let s := runState zc (State.init fun _ => true) [⟨.new, 0⟩, ⟨.fill 0xa5, 0⟩, ⟨.lock, 0⟩, ⟨.unlock, 0⟩]
+    ((zeroizeEffect zc s 0).slots.map fun sl => (sl.o.st, sl.o.v.data)) =
+      ((step zc s ⟨.fill 0, 0⟩).2.slots.map fun sl => (sl.o.st, sl.o.v.data)) ∧
+    Model.Protected.lockedPages (zeroizeEffect zc s 0).m.k = Model.Protected.lockedPages s.m.k := by
+  decide
+
 end DryocVerif.Properties.C20
